@@ -723,6 +723,14 @@ fn edit_once(rng: &mut Rng, specs: &mut Vec<Spec>) -> &'static str {
         9 | 10 => { // event-time settings of a stream: allowed lateness or out-of-orderness (same operation count)
             let j = (0..n).map(|o| (i + o) % n).find(|&j| specs[j].kind.starts_with("wm"));
             match j {
+                Some(j) if rng.chance(1, 3) => { // the watermark stream reads another source: the old source is no longer declared
+                    let mut pool: Vec<String> = INPUT_TYPES.iter().map(|t| t.to_string()).collect();
+                    pool.extend(specs.iter().map(|s| s.name.clone()));
+                    let cur = specs[j].s[0].clone();
+                    let cands: Vec<String> = pool.into_iter().filter(|x| *x != cur).collect();
+                    specs[j].s[0] = cands[rng.below(cands.len() as u64) as usize].clone();
+                    "wm-source"
+                }
                 Some(j) if specs[j].kind == "wm" && rng.chance(2, 3) => { specs[j].d = if specs[j].d >= 2 { 0 } else { specs[j].d + 1 + rng.below(2) as i64 }; "wm-allowed-lateness" }
                 Some(j) => { specs[j].n = if specs[j].n >= 4 { 2 } else { specs[j].n + 1 }; "wm-out-of-order" }
                 None => { specs[i].kind = "wm".to_string(); "to-wm-stream" }
@@ -749,8 +757,27 @@ fn scenario_reload(ctx: &mut Ctx, runner: &Runner, sc: usize) {
     // one scenario in four: a sequence / join stream over a derived stream, and an edit of that derived stream
     let dependent = ctx.rng.chance(1, 4);
     let (specs, di) = if dependent { gen_dependent_specs(&mut ctx.rng) } else { (gen_specs(&mut ctx.rng), 0) };
+    // one scenario in ten: a watermark stream on an input type (with out-of-orderness) that reads another input
+    // type after the reload - the new program no longer declares the old source
+    let wmsrc = !dependent && ctx.rng.chance(1, 8);
+    let mut specs = specs;
+    if wmsrc {
+        let i = ctx.rng.below(specs.len() as u64) as usize;
+        specs[i].kind = "wm".to_string();
+        specs[i].alias = ctx.rng.chance(1, 3);
+        specs[i].s[0] = INPUT_TYPES[ctx.rng.below(3) as usize].to_string();
+        specs[i].n = 3 + ctx.rng.below(2) as i64;
+        specs[i].d = ctx.rng.below(2) as i64;
+        tame(&mut specs);
+    }
     let mut specs2 = specs.clone();
-    let what: String = if dependent {
+    let what: String = if wmsrc {
+        let i = specs.iter().position(|s| s.kind == "wm").unwrap();
+        let cur = specs[i].s[0].clone();
+        let cands: Vec<&&str> = INPUT_TYPES.iter().filter(|t| **t != cur).collect();
+        specs2[i].s[0] = cands[ctx.rng.below(cands.len() as u64) as usize].to_string();
+        "wm-source-input-type".to_string()
+    } else if dependent {
         match ctx.rng.below(8) {
             0 => "dep:same".to_string(),
             1 => { specs2[di].kind = (if specs2[di].kind == "filter" { "femit" } else { "filter" }).to_string(); "dep:add-remove-step".to_string() }
